@@ -11,6 +11,7 @@ SENT = -2
 
 
 def conc(cls, k):
+    cls = cls[:-4] if cls.endswith("_ord") else cls      # ordered categorical variants share everything but the flag
     import numpy as np
     import pandas as pd
     if cls == "bool" or cls == "boolean":
@@ -86,16 +87,19 @@ def series(cls, cells, name="x"):
         return pd.Series([pd.NaT if m else v for v, m in zip(vals, miss)], dtype="datetime64[%s]" % unit, name=name)
     if cls == "td_ns":
         return pd.Series([pd.NaT if m else v for v, m in zip(vals, miss)], dtype="timedelta64[ns]", name=name)
-    if cls in ("cat_str", "cat_int"):
-        # category order deliberately differs from the order of the labels, plus one unused category
+    if cls in ("cat_str", "cat_int", "cat_str_ord", "cat_int_ord"):
+        # category order deliberately differs from the order of the labels, plus one unused category;
+        # the _ord variants declare that order as THE order of the categorical (statistics still go by label value)
         used = sorted({c for c in cells if c >= 0})
-        cats = [conc(cls, k) for k in reversed(used)] + [conc(cls, 6) if 6 not in used else ("unused" if cls == "cat_str" else 424242)]
-        return pd.Series(pd.Categorical([None if m else v for v, m in zip(vals, miss)], categories=cats), name=name)
+        cats = [conc(cls, k) for k in reversed(used)] + [conc(cls, 6) if 6 not in used else ("unused" if cls.startswith("cat_str") else 424242)]
+        return pd.Series(pd.Categorical([None if m else v for v, m in zip(vals, miss)], categories=cats,
+                                        ordered=cls.endswith("_ord")), name=name)
     raise ValueError(cls)
 
 
 def cell_equal(cls, got, want_k):
     """compare a cell read back by the library with the abstract expectation (want_k < 0: missing)"""
+    cls = cls[:-4] if cls.endswith("_ord") else cls      # ordered categorical variants share everything but the flag
     import numpy as np
     import pandas as pd
     missing = got is None or got is pd.NA or got is pd.NaT or (isinstance(got, float) and got != got)
@@ -128,6 +132,7 @@ def cell_equal(cls, got, want_k):
 
 
 def stat_equal(cls, got, want_k):
+    cls = cls[:-4] if cls.endswith("_ord") else cls      # ordered categorical variants share everything but the flag
     """a min/max exposed by ParquetFile.statistics against the abstract expectation: same logical value
     (text may come as bytes, a tz-aware instant as the naive UTC instant)"""
     import numpy as np
@@ -152,6 +157,7 @@ def stat_equal(cls, got, want_k):
 
 def dtype_ok(cls, dtype):
     """the documented canonical dtype of a class after a round trip"""
+    cls = cls[:-4] if cls.endswith("_ord") else cls      # ordered categorical variants share everything but the flag
     s = str(dtype)
     if cls in NP_DTYPE:
         return s == NP_DTYPE[cls]
@@ -224,6 +230,7 @@ def _lt_unit(lt, key):
 
 
 def expected_logical(cls, k):
+    cls = cls[:-4] if cls.endswith("_ord") else cls      # ordered categorical variants share everything but the flag
     import pandas as pd
     v = conc(cls, k)
     if cls in ("bool", "boolean"):
